@@ -236,6 +236,9 @@ func init() {
 			k.Clients[i].Scopes = []string{"openid", "offline", "photos", "users.*", "mail.read", "files", "a.*.c"}
 			k.Clients[i].Audience = []string{"https://api.sim/v1", "https://files.sim/"}
 		}
+		if t.Chance(40) {
+			k.Clients[t.Intn(len(k.Clients))].Audience = nil // a registration without any audience: nothing may be requested
+		}
 		nc := len(k.Clients)
 		scopes := []string{"photos", "users.read", "users.read.own", "users", "mail", "mail.read", "mail.read.all", "files.x", "admin", "a.b.c", "a.b.d", "a..c", "users.", "openid", "offline", "*"}
 		auds := []string{"https://api.sim/v1", "https://api.sim/v1/", "https://api.sim/v1/things", "https://api.sim/v1x", "https://api.sim/", "https://files.sim", "https://files.sim/deep/er", "http://api.sim/v1", "https://API.sim/v1", "https://evil.example", "https://api.sim:8443/v1"}
@@ -274,7 +277,7 @@ func init() {
 			case 2:
 				steps = append(steps, st("authz", c, 0, "rt", "token", "scope", sc, "aud", au))
 			case 3:
-				steps = append(steps, st("authz", c, 0, "rt", "code id_token token", "scope", "openid "+sc, "aud", au, "nonce", fmt.Sprintf("nonce-%d-abcdefgh", len(steps))))
+				steps = append(steps, st("authz", c, 0, "rt", t.Pick([]string{"code id_token token", "code id_token", "id_token token", "id_token"}), "scope", "openid "+sc, "aud", au, "nonce", fmt.Sprintf("nonce-%d-abcdefgh", len(steps))))
 			case 4:
 				steps = append(steps, st("client_credentials", c, 0, "scope", sc, "aud", au))
 			case 5:
